@@ -1,0 +1,16 @@
+//go:build verif
+
+package cache
+
+import "runtime"
+
+// VerifStopCleanup stops the background cleanup goroutine started by New (if
+// any) and clears the finalizer that would otherwise try to stop it a second
+// time. It exists only in builds with the `verif` tag: a goroutine that never
+// ends keeps a testing/synctest bubble from finishing.
+func (c *Cache[K, V]) VerifStopCleanup() {
+	if c.cleanupInt > 0 {
+		runtime.SetFinalizer(c.cache, nil)
+		c.done <- struct{}{}
+	}
+}
